@@ -78,6 +78,68 @@ Proof.
   cbn [s_ts Prom.sample_of]. destruct (emit_ts c); split; congruence.
 Qed.
 
+(* ---- representability as a decidable predicate on the store ---- *)
+Definition repr_consistent (c : cfg) (s : list (list metric)) : Prop :=
+  forall g m ls, In g s -> In m g -> In ls (m_lvs m) -> ls_repr ls = representable c m ls.
+
+Theorem in_collect_concrete c s x :
+  repr_consistent c s ->
+  (In x (collect c s) <->
+   exists g m ls, In g s /\ In m g /\ m_kind m <> KText /\ In ls (m_lvs m) /\ representable c m ls = true /\
+                  x = sample_of c (group_source g) m ls).
+Proof.
+  intros RC. rewrite in_collect. unfold origin. split; intros (g & m & ls & Hg & Hm & K & Hl & R & E);
+    exists g, m, ls; repeat split; try assumption.
+  - rewrite <- (RC g m ls Hg Hm Hl). exact R.
+  - rewrite (RC g m ls Hg Hm Hl). exact R.
+Qed.
+
+Theorem one_sample_each_concrete c s g m ls :
+  repr_consistent c s -> no_dup_series c s ->
+  In g s -> In m g -> m_kind m <> KText -> In ls (m_lvs m) -> representable c m ls = true ->
+  let x := sample_of c (group_source g) m ls in
+  In x (collect c s) /\
+  forall y, In y (collect c s) -> s_name y = no_hyphens (m_name m) -> s_labels y = labels_of c m ls -> y = x.
+Proof.
+  intros RC N Hg Hm K Hl R. apply one_sample_each; try assumption. rewrite (RC g m ls Hg Hm Hl). exact R.
+Qed.
+
+(* the store with its oracle bits recomputed from the concrete rules *)
+Definition concretize_metric (c : cfg) (m : metric) : metric :=
+  {| m_name := m_name m; m_prog := m_prog m; m_kind := m_kind m; m_keys := m_keys m; m_source := m_source m;
+     m_lvs := map (fun ls => {| ls_vals := ls_vals ls; ls_val := ls_val ls; ls_time := ls_time ls;
+                                ls_repr := representable c m ls |}) (m_lvs m) |}.
+Definition concretize (c : cfg) (s : list (list metric)) : list (list metric) :=
+  map (map (concretize_metric c)) s.
+
+Theorem concretize_consistent c s : repr_consistent c (concretize c s).
+Proof.
+  intros g' m' ls' Hg Hm Hl. unfold concretize in Hg. apply in_map_iff in Hg as (g & <- & _).
+  apply in_map_iff in Hm as (m & <- & _). cbn [concretize_metric m_lvs] in Hl.
+  apply in_map_iff in Hl as (ls & <- & _). reflexivity.
+Qed.
+
+Lemma map_id_in {A} (f : A -> A) l : (forall x, In x l -> f x = x) -> map f l = l.
+Proof.
+  induction l as [|x l IH]; [reflexivity|]. intros H. cbn [map]. f_equal; [apply H; left; reflexivity|].
+  apply IH. intros y Hy. apply H. right. exact Hy.
+Qed.
+
+Lemma concretize_metric_id c (m : metric) :
+  (forall ls, In ls (m_lvs m) -> ls_repr ls = representable c m ls) -> concretize_metric c m = m.
+Proof.
+  intros H. destruct m as [n p k ks src lvs]. unfold concretize_metric.
+  cbn [m_name m_prog m_kind m_keys m_source m_lvs] in *. f_equal.
+  apply map_id_in. intros ls Hl. destruct ls as [v d t r]. cbn [ls_vals ls_val ls_time]. f_equal.
+  symmetry. exact (H _ Hl).
+Qed.
+
+Theorem concretize_id c s : repr_consistent c s -> concretize c s = s.
+Proof.
+  intros RC. unfold concretize. apply map_id_in. intros g Hg. apply map_id_in. intros m Hm.
+  apply concretize_metric_id. intros ls Hl. exact (RC g m ls Hg Hm Hl).
+Qed.
+
 (* ---- unrepresentable label sets ---- *)
 
 Lemma collect_metric_drop c src (m : metric) :
